@@ -18,6 +18,7 @@ import Knee.Model.Isodata
 import Knee.Model.Matching
 import Knee.Model.Ranking
 import Knee.Model.PipelineFull
+import Knee.Model.PipelineCfgM
 /-
 Correspondence driver.  `lake env lean --run Driver.lean` (or the compiled `driver` exe).
 Harness → driver : `CALL <fn> <arg> <arg> …`
@@ -452,6 +453,47 @@ def dispatch (out inp : IO.FS.Stream) (fn : String) (args : List String) : M Str
         let k := clusterFilter score labels c
         let o := mapping k red rem true
         pure (showNats red ++ " " ++ showNats knees ++ " " ++ showNats w ++ " " ++ showNats c ++ " " ++ showNats k ++ " " ++ showNats o)
+  | "pipeline_cfg", [simp, n, kind, t1, t2, tc, cmode, fin] =>
+    -- the pipeline for ANY configuration in ONE model run: `pipelineCfgM` (Knee/Model/PipelineCfgM.lean) at IO;
+    -- `pipelineCfgM_id` (Knee/Lemmas/BridgeCfg.lean) proves the same function at Id is `pipelineCfg`, the subject of C08F.
+    -- simp = rdp:isR2:t | grdp:isR2:t | fixed:k | mp:isR2:t:m | minpoint:isR2:m:t;t;t   cmode = rank|hull|corners   fin = map|even:0|even:1
+    let n ← orErr (parseNat? n) "n"
+    let t1 ← orErr (parseRat? t1) "t1"
+    let t2 ← orErr (parseNat? t2) "t2"
+    let tc ← orErr (parseRat? tc) "tc"
+    let s ← (match simp.splitOn ":" with
+      | ["rdp", r, t] => do let t ← orErr (parseRat? t) "t"; pure (Simplifier.rdp (r == "1") t)
+      | ["grdp", r, t] => do let t ← orErr (parseRat? t) "t"; pure (Simplifier.grdp (r == "1") t)
+      | ["fixed", k] => do let k ← orErr (parseNat? k) "k"; pure (Simplifier.fixed k)
+      | ["mp", r, t, m] => do let t ← orErr (parseRat? t) "t"; let m ← orErr (parseNat? m) "m"; pure (Simplifier.mpGrdp (r == "1") t m)
+      | ["minpoint", r, m, ts] => do
+        let m ← orErr (parseNat? m) "m"
+        let ts ← orErr ((ts.splitOn ";").mapM parseRat?) "ts"
+        pure (Simplifier.minPoint (r == "1") m ts)
+      | _ => throw "simplifier" : M Simplifier)
+    let o : SimpOraclesM M := ⟨oCst out inp, oDst out inp, oKey out inp, fun red => askRat out inp s!"gcs {showNats red}"⟩
+    let gate := fun (l r : Nat) => (do
+      if r - l ≤ 2 then pure (decide (t1 ≤ 1)) else do
+        let v ← askRat out inp s!"sm {l} {r}"
+        pure (decide (t1 ≤ v)) : M Bool)
+    let askNats := fun (q : String) => (do
+      let toks ← ask out inp q
+      orErr (parseList? parseNat? (toks.headD "-")) q : M (List Nat))
+    let cm ← (match cmode with
+      | "rank" => pure (ClusterModeM.rank fun g => askRats out inp s!"scores {showNats g}")
+      | "hull" => pure (ClusterModeM.hull (askNats "hull") fun g => askRats out inp s!"herrs {showNats g}")
+      | "corners" => pure (ClusterModeM.corners fun g => askRats out inp s!"areas {showNats g}")
+      | _ => throw "cluster mode" : M (ClusterModeM M))
+    let fin ← (match fin.splitOn ":" with
+      | ["map"] => pure FinalM.map
+      | ["even", e] => pure (FinalM.addEven (fun _ => askRats out inp "hts0") (fun _ => askNats "wide") (fun _ => askNats "npts") (e == "1"))
+      | _ => throw "final stage" : M (FinalM M))
+    let r ← pipelineCfgM s o n (fun red => do let _ ← ask out inp s!"reduced {showNats red}"; pure ())
+      (detM out inp kind .adjusted 10) gate t2 (fun _ => askRats out inp "hts") (fun ks => askRats out inp s!"ious {showNats ks}") tc
+      (fun ks => askNats s!"labels {showNats ks}") cm fin
+    match r with
+    | none => pure "none"
+    | some S => pure (showNats S.reduced ++ " " ++ showNats S.knees ++ " " ++ showNats S.worst ++ " " ++ showNats S.corner ++ " " ++ showNats S.cluster ++ " " ++ showNats S.out)
   | _, _ => throw s!"unknown call {fn}/{args.length}"
 
 partial def loop (out inp : IO.FS.Stream) : IO Unit := do
